@@ -9,7 +9,7 @@ ENGINES = [
  {"name":"query","path":"harness/src/query.rs","serves_properties":["C09","C10"],"kind_free_text":"explicit-state BFS over event histories on the real FindNodeQuery / PredicateQuery / QueryPool with explicit time"},
  {"name":"filter","path":"harness/src/filter.rs","serves_properties":["C18"],"kind_free_text":"explicit-state BFS of the real Limiter against an exact token bucket; full path enumeration; history-replay BFS of the real packet Filter with the global permit/ban list"},
  {"name":"ssim","path":"harness/src/ssim.rs","serves_properties":["C11","C12","C14","C17","C20"],"kind_free_text":"real Discv5/Service over a scripted handler (feature-gated early return in Handler::spawn); event histories enumerated exhaustively"},
- {"name":"hsim","path":"harness/src/hsim.rs (+ hdrive.rs, attack.rs, tamper.rs, expiry.rs)","serves_properties":["C01","C02","C03","C04","C13","C15","C19"],"kind_free_text":"2-4 real Handlers on virtual sockets (feature-gated early return in Socket::new; real RecvHandler::handle_inbound), harness-owned application, network, clock and crafted attacker; history-replay BFS with a deviation budget, every history run to a leaf"},
+ {"name":"hsim","path":"harness/src/hsim.rs (+ hdrive.rs, attack.rs, tamper.rs, expiry.rs)","serves_properties":["C01","C02","C03","C04","C12","C13","C14","C15","C19","C20"],"kind_free_text":"2-4 real Handlers on virtual sockets (feature-gated early return in Socket::new; real RecvHandler::handle_inbound), harness-owned application, network, clock and crafted attacker; history-replay BFS with a deviation budget, every history run to a leaf"},
  {"name":"table","path":"harness/src/table.rs","serves_properties":["C07","C08","C16"],"kind_free_text":"explicit-state BFS over operation histories on the real KBucketsTable (history replay, canonical fingerprints)"},
 ]
 
@@ -28,7 +28,7 @@ CHECKS = {
    "closest_keys / closest_values / closest_values_predicate must equal the sorted full scan and nodes_by_distances must return exactly the nodes at the requested distinct distances up to the cap: (1) for every set of <=4 (thorough 5) bit positions from {0,1,2,3,7,8,127,128,254,255}, three local ids, the full key space over those bits as table content and every key of the space as target; (2) in every state reached by the operation-history BFS.",
    "Differential oracle: iter_ref() full scan sorted by XOR distance computed by the harness.","3/C08"),
  "C16": ("model_checking","explicit-state BFS over operation histories on the real table with the real IP filters; limits checked in every state","table",
-   "All operation sequences up to the stated depth from seeds with 8/9/10 nodes of the contended /24 and a full bucket with/without a pending candidate: inserts into same/other/full bucket, record updates moving nodes between subnets (stored and pending), status changes, removals, time passing, iteration; per-bucket (2) and per-table (10) /24 limits evaluated after every call.",
+   "All operation sequences up to the stated depth from seeds with 8/9/10 nodes of the contended /24 and a full bucket with/without a pending candidate: inserts into same/other/full bucket, record updates moving nodes between subnets (stored and pending), status changes, removals, time passing, iteration; per-bucket (2) and per-table (10) /24 limits evaluated after every call. Service level: a real Discv5 configured with ip_limit() in the IPv4, IPv6 and dual-stack listen modes refuses the third record of a /24 in a bucket and the eleventh in the table.",
    "Every record is signed by a key bound to exactly one crafted table key; harness-owned clock.","3/C16"),
 
  "C09": ("model_checking","explicit-state BFS over event histories on the real query state machines and QueryPool (history replay), ledger oracle, every state run to completion","query",
@@ -72,8 +72,8 @@ CHECKS = {
  "C15": ("model_checking","explicit-state BFS on the real LruTimeCache vs a list reference, and history-replay BFS on 2-4 real handlers with idle periods around the session timeout and capacity 1/2","hsim",
    "Component: all operation sequences to depth 6 (thorough 8) on the real cache (capacity 1..3, ttl 10 s, idle 4/7 s). Handler: every interleaving of request submissions in both directions with idle periods of 99/101 s around a 100 s session timeout, and every order of session establishment with capacity 1 and 2: no message is encrypted or accepted under a session idle for longer than the timeout, sessions <= capacity, the victim is the least recently used.",
    "Idle periods are taken only while nothing is in flight.","3/C15"),
- "C19": ("model_checking","C04 search re-run with the random part of every message nonce forced to a constant (hook); datagrams grouped by the session key that decrypts them","hsim",
-   "On every explored history (retransmissions, re-keying by either side with requests in flight, peer restart) with the 8 random nonce bytes forced constant: two datagrams of one node that decrypt under the same key carry different nonces or are byte-identical; id-nonces of WHOAREYOUs never repeat exactly.",
+ "C19": ("model_checking","C04 search and attacker-move BFS re-run with the random part of every message nonce forced to a per-key constant (hook); datagrams grouped by the session key that decrypts them","hsim",
+   "On every explored history (retransmissions, re-keying by either side with requests in flight, peer restart) with the 8 random nonce bytes forced constant per session key, and in the attacker worlds (genuine handshakes of a crafted peer with verifiable / unverifiable record, garbage, replays; <= 4 (5) moves): two datagrams of one node that decrypt under the same key carry different nonces or are byte-identical; id-nonces of WHOAREYOUs never repeat exactly.",
    "u32 counter wrap out of reach; id-nonce uniqueness is probabilistic (only exact repeats are caught).","3/C19"),
 }
 
